@@ -168,9 +168,28 @@ def _expand(N, e, p, depth=0):
     return [e]
 
 
-def render_paths(N, nodes, limit: int = 512, for_zero: bool = False, subst=None, prefix: str = "P") -> typing.List[TPath]:
+ATOMIC_MACRO = __import__("re").compile(r"^(_?(de)?serialize(_\w+)?|_pad_to_alignment|assert|_?(de)?serialize_any)$")
+
+
+def _helper_call(N, e, macros):
+    """(macro, call) when the output expression is a call (possibly piped through trim/indent) of a *helper* macro of the same
+    template: one that is not an emitter of the codec family, which the rules treat as atomic events"""
+    if not macros:
+        return None
+    while isinstance(e, N.Filter) and e.name in ("trim", "indent", "string", "safe") and e.node is not None:
+        e = e.node
+    if isinstance(e, N.Call) and isinstance(e.node, N.Name) and e.node.name in macros and not ATOMIC_MACRO.match(e.node.name) \
+            and e.dyn_args is None and e.dyn_kwargs is None:
+        return macros[e.node.name], e
+    return None
+
+
+def render_paths(N, nodes, limit: int = 512, for_zero: bool = False, subst=None, prefix: str = "P", macros=None) -> typing.List[TPath]:
     """enumerate the static text paths of a node list.
-    subst(expr_node) may return a literal replacement string for an expression (e.g. an operator held in a variable)."""
+    subst(expr_node) may return a literal replacement string for an expression (e.g. an operator held in a variable).
+    macros: name -> Macro of the same template; calls of helper macros (not the codec emitters) are expanded in place with
+    their parameters bound, so that extracting repeated text into a helper macro does not change the rendered paths."""
+    inlining = [0]
     counter = [0]
     names: typing.Dict[str, str] = {}
 
@@ -207,6 +226,34 @@ def render_paths(N, nodes, limit: int = 512, for_zero: bool = False, subst=None,
                 for e in node.nodes:
                     if isinstance(e, N.TemplateData):
                         paths = [TPath(p.parts + (e.data,), p.conds, p.ph, p.env, p.cnodes) for p in paths]
+                    elif _helper_call(N, e, macros) is not None and inlining[0] < 3:
+                        mac, call = _helper_call(N, e, macros)
+                        nxt = []
+                        inlining[0] += 1
+                        try:
+                            for p in paths:
+                                bind = []
+                                for i, a in enumerate(mac.args):
+                                    val = None
+                                    if i < len(call.args):
+                                        val = call.args[i]
+                                    else:
+                                        kw = [k.value for k in call.kwargs if k.key == a.name]
+                                        if kw:
+                                            val = kw[0]
+                                        else:
+                                            j = i - (len(mac.args) - len(mac.defaults))
+                                            if 0 <= j < len(mac.defaults):
+                                                val = mac.defaults[j]
+                                    if val is not None and not (isinstance(val, N.Name) and val.name == a.name):
+                                        # the argument is evaluated in the caller's scope: inline the caller's bindings into it now
+                                        bind.append((a.name, val))
+                                inner = run(mac.body, [TPath(p.parts, p.conds, p.ph, p.env + tuple(bind), p.cnodes)])
+                                for q in inner:
+                                    nxt.append(TPath(q.parts, q.conds, q.ph, p.env, q.cnodes))
+                        finally:
+                            inlining[0] -= 1
+                        paths = nxt
                     else:
                         nxt = []
                         for p in paths:
